@@ -171,7 +171,26 @@ func main() {
 	repo := flag.String("repo", "/repo", "root of the chainlink-ccip working tree")
 	out := flag.String("out", "", "output directory (Leaf.v, manifest.json)")
 	only := flag.String("only", "", "comma separated Gallina names; default: the whole table")
+	list := flag.Bool("list", false, "print the table (Gallina name, source file, function) as JSON and exit")
 	flag.Parse()
+	if *list {
+		type row struct {
+			Name string `json:"name"`
+			File string `json:"file"`
+			Func string `json:"func"`
+		}
+		var rows []row
+		for _, sp := range table {
+			f := sp.Func
+			if sp.Recv != "" {
+				f = sp.Recv + "." + sp.Func
+			}
+			rows = append(rows, row{sp.Name, sp.File, f})
+		}
+		js, _ := json.MarshalIndent(rows, "", "  ")
+		os.Stdout.Write(append(js, '\n'))
+		return
+	}
 	if *out == "" {
 		fmt.Fprintln(os.Stderr, "translate: -out is required")
 		os.Exit(2)
